@@ -14,8 +14,9 @@ import (
 )
 
 // C15 partition routing: server vs SDK vs Lean model.
-//   part  <hexpk> <n>        → p=<server partition>
-//   route <hexrawkey> <n>    → ns=<hex> pk=<hex> p=<partition>  |  err
+//
+//	part  <hexpk> <n>        → p=<server partition>
+//	route <hexrawkey> <n>    → ns=<hex> pk=<hex> p=<partition>  |  err
 func init() {
 	register(&Proto{Name: "c15", Gen: genC15, New: newC15})
 }
